@@ -1144,7 +1144,8 @@ func c17Caps(r *core.Run) {
 					}
 					sc, isCall := callTo(x, "(*math/big.Int).Sign")
 					z, isZ := core.ConstInt(y)
-					if !isCall || !isZ || z != 0 || sc.Call.Args[0] != div {
+					// the same value, or a second load of the same field (x.Value read once for the test and once for the division)
+					if !isCall || !isZ || z != 0 || (sc.Call.Args[0] != div && core.Canon(sc.Call.Args[0]) != core.Canon(div)) {
 						return false, false
 					}
 					return true, op == token.NEQ
